@@ -62,7 +62,10 @@ class NpProxy(types.ModuleType):
     @staticmethod
     def array(obj, dtype=None, *a, **k):
         if isinstance(obj, SymArr):
-            return obj.copy()
+            r = obj.copy()
+            if dtype in (float, np.float64, 'float'):
+                r.kind = 'f'
+            return r
         if isinstance(obj, np.ndarray) and obj.dtype == object and contains_sym(obj):
             return SymArr(obj)
         if isinstance(obj, (list, tuple)) and _seq_has_sym(obj):
